@@ -476,7 +476,7 @@ PROPS["C09"] = dict(
                "non-multiples of 4 KiB and sizes whose segment length is not a multiple of 128, salts of 8..=64 bytes, and seeded random combinations; each output equals libsodium's. "
                "Out-of-range output/salt lengths and costs must be rejected; PwHash::verify must accept the right and reject altered passwords. The parameter space is sampled on a grid, hence exploration.",
     level_note="libsodium's public function refuses Argon2i with t<3 and salts != 16 bytes; those cells use libsodium's internal Argon2 core (same code path its public function calls) and the independent Python model (m<=64 KiB, t<=3).",
-    runs=lambda tier: [dict(build="st", monitor="c09")],
+    runs=lambda tier: [dict(build="st", monitor="c09", timeout=(300 if tier == "quick" else 3000))],
     offline=offline.check_c09,
     models=["argon2"],
     floors=_c09_floors,
